@@ -35,7 +35,7 @@ type lex struct {
 	raw   bool // emitted verbatim, always followed by newline
 }
 
-var hostile = []string{"%%", "{", "}", "'", "\"", ":", "|", ";", "*", "/", "%token", "%left", "%prec", "<", ">", "$$", "$1", "x", "A", " ", "%{", "%}", "%union", "/*", "//", "**", "***"}
+var hostile = []string{"%%", "{", "}", "'", "\"", ":", "|", ";", "*", "/", "%token", "%left", "%prec", "<", ">", "$$", "$1", "x", "A", " ", "%{", "%}", "%union", "/*", "//", "**", "***", "é", "加减法", "—", "ß%", "日本 {"}
 
 func comment(r *rand.Rand) string {
 	n := r.Intn(5)
